@@ -138,9 +138,29 @@ PROPS["C19"] = {
     "assumptions": COMMON_ASSUME + ["the sub-image loop's buffer-only accessors are covered by C19_readahead (read-ahead <= 81 bits < 8*16-7) and by the in-situ runs; `buf_read_lz77` extra bits are `buf_read`"],
 }
 
+PROPS["C06"] = {
+    "extract": ["webp_codec", "webp_consts", "vp8l_tables"],
+    "rule": "cases = exhaustive chunk sequences up to length 2 (3 in thorough) after VP8X over {VP8, VP8L, VP8X, ALPH, ANIM, ANMF(lossy), ANMF(lossless), ICCP, EXIF, XMP, unknown} x all 32 VP8X flag sets, and the same sequences as simple files; every sequence up to length 2 (3) inside an ANMF frame over {ALPH, VP8, VP8L, unknown, EXIF, ANMF, ANIM} x alpha flag x frame = / < canvas; framing families on four valid files (RIFF size field true-9..true+1000 with and without trailing bytes; every truncation point; every chunk size field +1/-1/+2/+100000/max, also inside frames); odd sizes with pad byte 0 / non-zero / missing; odd RIFF size; RIFF sizes 2^32-12..2^32-1 on sparse streams; reserved bits and exact sizes of VP8X/ANIM/ANMF; canvas/frame dimension relations; libwebp encoder and muxer output (lossless, lossy, lossy+alpha, animations with sub-canvas frames, ICC/EXIF/XMP) and single-byte corruptions of it; all on a seek-based and a strict reader and with both Config values. non-trivial = the RIFF/WEBP header was accepted and at least one chunk header was read (every tag except n1 with an error); distinct = distinct case lines",
+    "trivial_tags": [],
+    "shards": {"quick": 8, "thorough": 16},
+    "exhaustive": {"quick": True, "thorough": True},
+    "explanation": "exhaustive = all chunk sequences of the stated length over the chunk alphabet x all 32 flag sets, at file level and inside ANMF",
+    "trusted_base": [
+        "hand-written model lean/MediaSan/Webp/Sanitize.lean of webpsan/src/{lib,reader}.rs as a three-level reader stack over one cursor (BufReader(8) layers transparent by C15), tied by differential execution",
+        "MediaSan/Spec/WebpGrammar.lean: recursive-descent recogniser written from the property text / WebP container specification; 'valid lossless payload' = the validator model of C07/C08",
+        "extract.py `webp_consts` / `webp_codec`: MAX_FILE_LEN, chunk names, known-chunk lists, allow_unknown gates, chunk schemas",
+    ],
+    "assumptions": COMMON_ASSUME,
+}
+
 NOT_APPLICABLE = {}
 
 MANIFEST_TEXT = {
+    "C06": {
+        "text": "Lean theorems about the reader-stack model: nested reads/skips never cross an enclosing chunk's remaining body, consumed bytes are accounted on every enclosing level, extracted constants and FourCCs are the model's. The equivalence accepted <-> Grammar (a recursive-descent recogniser written from the property text) is evaluated on the real code, in both directions, over exhaustive chunk sequences x 32 flag sets (file level and inside ANMF), framing / size / padding / truncation families on seek-based and strict readers, RIFF sizes near 2^32 on sparse streams, and libwebp encoder + muxer output; the model must agree with webpsan on every case.",
+        "note": "Partial: the grammar equivalence is decided per generated case on the implementation, not yet by a theorem. The check found F1 (truncated file accepted on seek-based readers), F2 (lossless frames checked against the canvas instead of the frame) and F7 (largest RIFF size the format allows rejected), repaired in /repo. Trusted: see evidence.",
+        "technique": "Lean 4 proof of reader-stack lemmas + exhaustive small-sequence differential check against a declarative grammar",
+    },
     "C19": {
         "text": "Lean theorems (simulation through 'absolute bit index = 8*dropped + position; buffer ++ unread = remaining bytes'): fill_buf preserves the abstraction and position and leaves >= 8*cap-7 bits or everything; read(n) and read_huffman through the buffer return exactly what the whole-string reader returns, report end of data iff the whole string is exhausted, and re-establish the abstraction - for every capacity with n+8 <= 8*cap resp. longest+8 <= 8*cap, every input and every chunking (invisible to read_to_end); the sub-image loop's read-ahead is <= 81 bits < 8*16-7. Correspondence: public BitBufReader API at capacities 16..64 and 4096 under random field sequences and short-read patterns against both the buffered model and the whole-string reader; in situ via the capacity hook, webpsan's verdict at nine capacities must equal the verdict at 4096 and the ideal model's.",
         "note": "Trusted: Lean kernel and standard axioms; the BitBuf model (validated differentially); the hook. The lift from single operations to whole validator runs (C19_verdict) is carried by the in-situ correspondence; its proof is future work.",
